@@ -65,6 +65,7 @@ type Map struct {
 	Vals []Value
 	KT   types.Type
 	VT   types.Type
+	cell *Value // shadow cell for the race detector: the map as a whole (Go reports map read/write and write/write races)
 }
 
 type Closure struct {
